@@ -167,7 +167,7 @@ def delete (hasDb : Bool) (s : Store) : Nat → WN → List Nib → DRes
           | n' => { node := .short sk h n' true tc, change := r.change, td := r.td }
     | .routing h ch w d tc =>
       match key with
-      | [] => { node := .routing h ch w d tc, err := some .panic }
+      | [] => { node := .routing h ch w d tc, err := some .notFound }   -- a branch below the full key depth (round-4 fix)
       | k :: ks =>
         let r := delete hasDb s fuel (ch k) ks
         match r.err with
@@ -309,8 +309,13 @@ def eraseAll (l : List Bytes) (xs : List Bytes) : List Bytes := l.filter (fun k 
 /-- `Commit(collapseLevel)`: the trie afterwards and the batch (to be applied by the caller) -/
 def commit (t : WT) (collapse : Int) : WT × List StoreOp :=
   -- what the uncommitted changes superseded is queued for GC only now (fix a54b110)
+  let hadChanges := !t.pending.isEmpty
   let t : WT := { t with tempDeleted := t.tempDeleted ++ t.pending, pending := [] }
-  if !t.root.dirty then (t, [])
+  if !t.root.dirty then
+    -- nothing to write. After the deletion of every key the root is the (clean) empty node although there were changes:
+    -- this commit creates no node and the previous commit's list must not be rolled back in its place (round-4 fix); a
+    -- genuinely clean second commit keeps the list
+    (if hadChanges then { t with created := [] } else t, [])
   else
     let r : CRes := match t.root with
       | .routing h ch w d tc =>
